@@ -45,22 +45,32 @@ Record program := mkProgram {
 
 (* ---------- character tests of one state, in the order of the generated match arms ---------- *)
 
+(* range_chars: a piece of a range map as a range of chars. Pieces can start or end at a surrogate
+   code point; they are shrunk to the chars they contain, or dropped (None). *)
+Definition in_surrogates (c : N) : bool := (SURR_LO <=? c)%N && (c <=? SURR_HI)%N.
+Definition range_chars (lo hi : N) : option (N * N) :=
+  let lo' := if in_surrogates lo then (SURR_HI + 1)%N else lo in
+  let hi' := if in_surrogates hi then (SURR_LO - 1)%N else hi in
+  if (hi' <? lo')%N then None
+  else if (CHAR_MAX <? lo')%N || (CHAR_MAX <? hi')%N then None     (* char::from_u32(..)? *)
+  else Some (lo', hi').
+
 (* ranges that lead to the same state are tested together: guard chain or search table *)
 Definition group_ranges (rs : rmap trans) : list (nat * pairs) :=
   fold_left (fun acc r =>
-               match r_val r with
-               | TGoto t =>
+               match range_chars (r_lo r) (r_hi r), r_val r with
+               | Some p, TGoto t =>
                    match assoc_nat t acc with
-                   | Some l => assoc_nat_set t (l ++ [(r_lo r, r_hi r)]) acc
-                   | None => acc ++ [(t, [(r_lo r, r_hi r)])]
+                   | Some l => assoc_nat_set t (l ++ [p]) acc
+                   | None => acc ++ [(t, [p])]
                    end
-               | TAccept _ => acc
+               | _, _ => acc
                end) rs [].
 
 Definition accept_ranges (rs : rmap trans) : list (pairs * list accval) :=
-  flat_map (fun r => match r_val r with
-                     | TAccept a => [([(r_lo r, r_hi r)], a)]
-                     | TGoto _ => [] end) rs.
+  flat_map (fun r => match range_chars (r_lo r) (r_hi r), r_val r with
+                     | Some p, TAccept a => [([p], a)]
+                     | _, _ => [] end) rs.
 
 (* result of looking a character up in a state: which transition the generated `match char`
    selects. Char arms come first, then accepting ranges, then grouped ranges, then default. *)
@@ -80,17 +90,10 @@ Definition lookup_char (max_guard : nat) (st : dstate trans) (c : N) : option tr
   | None => find_range_trans max_guard (d_ranges st) c
   end.
 
-(* end points of every range of the final automata must be chars (codegen unwraps
-   char::try_from on them) *)
-Definition ranges_scalar {T} (d : dfa T) : bool :=
-  forallb (fun st => forallb (fun r => is_scalar (r_lo r) && is_scalar (r_hi r)) (d_ranges st)) d.
-
 Definition make_program (max_guard : nat) (d : dfa trans) (entries : list (name * nat))
            (ctxs : list (dfa nat)) : result program :=
-  if negb (ranges_scalar d && forallb ranges_scalar ctxs) then Panic TagSurrogateEndpoint
-  else
-    let inl := inlined_states d in
-    Ok (mkProgram d inl (arms d) (switch_table inl entries) ctxs max_guard).
+  let inl := inlined_states d in
+  Ok (mkProgram d inl (arms d) (switch_table inl entries) ctxs max_guard).
 
 (* ---------- right-context functions (generate_right_ctx_fns) ---------- *)
 (* `fn L_RIGHT_CTX_i(mut input) -> bool`: runs the (unsimplified) context DFA from state 0 and
@@ -102,9 +105,13 @@ Definition ctx_lookup_char (max_guard : nat) (st : dstate nat) (c : N) : option 
   | None =>
       let groups :=
         fold_left (fun acc r =>
-                     match assoc_nat (r_val r) acc with
-                     | Some l => assoc_nat_set (r_val r) (l ++ [(r_lo r, r_hi r)]) acc
-                     | None => acc ++ [(r_val r, [(r_lo r, r_hi r)])]
+                     match range_chars (r_lo r) (r_hi r) with
+                     | None => acc
+                     | Some p =>
+                         match assoc_nat (r_val r) acc with
+                         | Some l => assoc_nat_set (r_val r) (l ++ [p]) acc
+                         | None => acc ++ [(r_val r, [p])]
+                         end
                      end) (d_ranges st) [] in
       match find (fun g => compiled_member max_guard (snd g) c) groups with
       | Some g => Some (fst g)
